@@ -72,6 +72,14 @@ func makeDefineArgumentInfo(
 }
 
 func (m *MethodEvaluator) errorResolve() error {
+	// `recv.` with nothing after the dot is a call still being typed:
+	// completion on that row is asked for recv, not for the failed call
+	if m.method == "\n" || m.method == "" {
+		suggestTargetT := m.parser.LspSuggestTargetT
+
+		defer func() { m.parser.LspSuggestTargetT = suggestTargetT }()
+	}
+
 	for {
 		nextT, err := m.parser.Read()
 		if err != nil {
